@@ -21,7 +21,7 @@ Clauses(rec) == RoundTripClauses(rec.e, rec.p, rec.s2 = rec.s1)
 \* drift: the code's observable intermediates against the transcription's prediction
 Drift(rec) ==
     LET toks == Stringify(rec.e) IN
-    IF ~Printable(toks) THEN << >>
+    IF ~Printable(toks) \/ rec.p.r = "noprint" THEN << >>
     ELSE (IF rec.toks # toks THEN << "printed-tokens" >> ELSE << >>)
       \o (LET p == Parse(rec.toks) IN
           IF rec.p.r = "ok" /\ p.ok THEN (IF p.e # rec.p.e THEN << "parsed-tree" >> ELSE << >>)
